@@ -10,6 +10,7 @@ From Coq Require Import Uint63 FloatOps SpecFloat PrimFloat.
 From PV Require Import Model.Base Model.RtJson Gen.RtTables.
 Import ListNotations.
 Open Scope string_scope.
+Open Scope list_scope.
 Open Scope Z_scope.
 
 Definition f_1e6' : float := 0x1.e848p+19%float.
@@ -284,7 +285,10 @@ Definition sc_from_noise (nm : pv) : option pv :=
   let R := dedup (relevant T (attr "state_prep_error" nm) (attr "amp_sigma" nm)
                            (attr "laser_waist" nm)) in
   let kw0 := ("noise", attr "noise_types" nm)
-             :: map (fun p => (sc_name p, attr p nm)) R in
+             :: map (fun p => (sc_name p,
+                               (* list(map(qutip.Qobj, opers)): entries become complex *)
+                               if String.eqb p "eff_noise_opers" then opers_full (attr p nm)
+                               else attr p nm)) R in
   let kw1 := if mem_s "amplitude" T && negb (has_key "laser_waist" kw0)
              then kw0 ++ [("laser_waist", PFlt infinity)] else kw0 in
   let kw2 := remove_key "with_leakage" kw1 in
